@@ -81,7 +81,9 @@ ExpectedSNI(t) == CASE t = "metadata" -> "bundleHost"
 \* prior: what happened on the same resolver before the handshake of the row - nothing ("cold"), or a handshake with a
 \* genuine server that was accepted ("warm").  Acceptance is a function of the presented chain alone: Accept does not
 \* mention `prior`.
-Priors == {"cold", "warm"}
+\* "concurrent": while the handshake of the row runs, other handshakes with a genuine server run through the same endpoint
+\* (the node presents the row's chain to every second connection) - acceptance does not depend on them either.
+Priors == {"cold", "warm", "concurrent"}
 Rows == {[target |-> t, chain |-> c, host |-> h, tls |-> v, draw |-> d, prior |-> p] :
             t \in Targets, c \in Chains \cup {EmptyChain}, h \in HostKinds, v \in TLSVersions, d \in 1..IdDraws, p \in Priors}
 \* the time-shifted validities are only combined with otherwise acceptable chains presented by a node (an endpoint
@@ -89,6 +91,7 @@ Rows == {[target |-> t, chain |-> c, host |-> h, tls |-> v, draw |-> d, prior |-
 RealRows == {r \in Rows : /\ ~(r.target = "metadata" /\ r.chain.san = "sniName")
                           \* warm rows: node targets, chains that are current and carry the right name (the interesting ones)
                           /\ r.prior = "warm" => (r.target # "metadata" /\ r.chain # EmptyChain /\ r.chain.san = "bundleHost" /\ r.chain.validity = "current")
+                          /\ r.prior = "concurrent" => (r.target = "peer" /\ r.chain # EmptyChain /\ r.chain.validity \notin TimeShifted /\ r.draw = 1)
                           /\ (r.chain # EmptyChain /\ r.chain.validity \in TimeShifted) =>
                                 (r.target # "metadata" /\ ChainsToBundleCA(r.chain) /\ r.chain.san = "bundleHost")}
 
